@@ -365,6 +365,13 @@ func (w *World) encodeUpdate(p *Peer, s *Step) []byte {
 		if s.Attr != nil {
 			u.Attrs = s.Attr.Attrs(s.V6)
 		}
+		for i, pfx := range s.Wd {
+			id := uint32(0)
+			if i < len(s.WdIDs) {
+				id = s.WdIDs[i]
+			}
+			u.Withdraw = append(u.Withdraw, NLRI{Prefix: pfx, PathID: id})
+		}
 	}
 	return EncodeUpdate(u)
 }
